@@ -402,6 +402,7 @@ def downsample(
     mode: Optional[Union[Sampling, str]] = None,
     min_size: int = 0,
     align_corners: bool = ALIGN_CORNERS,
+    grid: Optional[Grid] = None,
 ) -> Tensor:
     r"""Downsample images after optional convolution with truncated Gaussian kernel.
 
@@ -419,6 +420,9 @@ def downsample(
             no low-pass filter is applied. If ``None``, a default value is used.
         min_size: Required minimum grid size.
         align_corners: Whether to preserve corner points (True) or grid extent (False).
+        grid: Sampling grid of input images. The size of the downsampled images is equal to the size
+            of this grid after downsampling it, which may have a fractional size attribute when it
+            has been downsampled before. If ``None``, a grid of the size of the input ``data`` is used.
 
     Returns:
         Downsampled image data.
@@ -444,8 +448,12 @@ def downsample(
             sigma=sigma,
             mode=mode,
             align_corners=align_corners,
+            grid=grid,
         )
-    grid = Grid(shape=data.shape[2:])
+    if grid is None:
+        grid = Grid(shape=data.shape[2:])
+    elif grid.shape != data.shape[2:]:
+        raise ValueError("downsample() 'grid' shape must match spatial dimensions of 'data'")
     if not dims:
         dims = tuple(dim for dim in range(grid.ndim))
     dims = tuple(SpatialDim.from_arg(dim) for dim in dims)
@@ -493,6 +501,7 @@ def upsample(
     sigma: Optional[Union[Scalar, Array]] = None,
     mode: Optional[Union[Sampling, str]] = None,
     align_corners: bool = ALIGN_CORNERS,
+    grid: Optional[Grid] = None,
 ) -> Tensor:
     r"""Upsample images and opitonally deconvolve with truncated Gaussian kernel.
 
@@ -509,6 +518,9 @@ def upsample(
             is the last ``data`` tensor dimension, e.g., ``(sx, sy)``. If ``sigma=0``
             or ``None``, no transposed convolution is applied.
         align_corners: Whether to preserve corner points (True) or grid extent (False).
+        grid: Sampling grid of input images. The size of the upsampled images is equal to the size
+            of this grid after upsampling it, which may have a fractional size attribute when it
+            has been downsampled before. If ``None``, a grid of the size of the input ``data`` is used.
 
     Returns:
         Upsampled image data.
@@ -534,8 +546,13 @@ def upsample(
             sigma=sigma,
             mode=mode,
             align_corners=align_corners,
+            grid=grid,
         )
-    grid = Grid(shape=data.shape[2:], align_corners=align_corners)
+    if grid is None:
+        grid = Grid(shape=data.shape[2:])
+    elif grid.shape != data.shape[2:]:
+        raise ValueError("upsample() 'grid' shape must match spatial dimensions of 'data'")
+    grid = grid.align_corners(align_corners)
     if not dims:
         dims = tuple(dim for dim in range(grid.ndim))
     dims = tuple(SpatialDim.from_arg(dim) for dim in dims)
